@@ -60,6 +60,32 @@ def oracle(case, ctx, label=True):
             return ctx.fail("inner/column-names", f"got {res.column_names()} want {names}")
     if R.snapshot_table(lt) != snap_l or R.snapshot_table(rt) != snap_r:
         return ctx.fail("inner/input-modified", "an input table changed during inner_join")
+    # the same join again after an in-place edit of one right key cell (a cached index would be stale now)
+    if case["nr"] >= 1 and case["nl"] >= 1:
+        spec = case["R"]["specs"][0]
+        if spec[0] in ("name", "own"):
+            kc = [nm for nm, _ in case["R"]["cols"]].index(spec[1]) if spec[0] == "name" else spec[1]
+            newv = lkeys[0][0]
+            if newv is not None and type(newv) is type(next((x for x in rkc[0] if x is not None), newv)):
+                try:
+                    rt.cols()[kc][case["nr"] - 1] = newv
+                    edited = True
+                except Exception:  # noqa: BLE001
+                    edited = False
+                if edited:
+                    ctx.ev()
+                    rkeys2 = [tuple(newv if (i == case["nr"] - 1 and c == 0) else k[c] for c in range(len(k))) for i, k in enumerate(rkeys)]
+                    rrows2 = R.cells(rt)
+                    lon2 = lon if not isinstance(lon, list) else list(lon)
+                    try:
+                        res2 = lt.inner_join(rt, lon2, ron, expect="many_to_many")
+                    except S.SerifTypeError:
+                        res2 = None
+                    if res2 is not None:
+                        want2 = R.frozen_rows(pairs_to_rows(ref_inner(lrows, rrows2, lkeys, rkeys2), lrows, rrows2, len(lt.cols()), len(rt.cols())))
+                        if R.frozen_rows(R.cells(res2)) != want2:
+                            return ctx.fail("inner/stale-after-in-place-edit-of-right-key",
+                                            f"after R key cell {case['nr'] - 1} := {newv!r}: got {R.cells(res2)} want {want2}")
     if cls["m2m"] or cls["partial"] or cls["none_both"]:
         ctx.nontrivial()
 
